@@ -21,6 +21,11 @@ class RateMatrix(MatrixData):
             if data.shape[0] != data.shape[1]:
                 raise Exception("Expecting rectangular matrix")
                 
+            # rates are real numbers; integer data would truncate rates
+            # assigned later
+            if not numpy.issubdtype(data.dtype, numpy.floating):
+                data = numpy.array(data, dtype=numpy.float64)
+                
             if self.N == 0:
                 self.N = data.shape[0]
                 self.data = data
